@@ -205,6 +205,38 @@ elif op == "reopen-header":
                 ks = sorted(g.keys())
                 if ks != [b"k1", b"k2"] or g.get(b"k1") != b"value-one" or g.get(b"k2") != b"value-two":
                     bad.append(f"after reopening a file with a {len(h2)}-byte comment and a {len(b0)}-byte descriptor block the records are {ks}")
+elif op == "close-reopen":
+    # a handle that created the file (w / x) or opened it (a / r) is closed and opened again -- through open() and through a second
+    # `with` block: records written before the close are still there, for this handle and for a fresh one
+    for mode in ("w", "x", "a", "r"):
+        for how in ("open", "with"):
+            pp = os.path.join(d, f"cr_{mode}_{how}.ukv")
+            if mode in ("a", "r"):
+                with UKVFile(pp, "w", h1=b"TESTH1", h2=b"c", b0=b"d") as f0:
+                    pass
+            f = UKVFile(pp, mode, h1=b"TESTH1", h2=b"c", b0=b"d")
+            try:
+                if mode != "r":
+                    f.put(b"k1", b"value-one")
+                    f.put(b"k2", b"")
+                f.close()
+                if how == "open":
+                    f.open()
+                else:
+                    f.__enter__()
+                if mode != "r":
+                    f.put(b"k3", b"value-three")
+                want = {b"k1": b"value-one", b"k2": b"", b"k3": b"value-three"} if mode != "r" else {}
+                got = {k: f.get(k) for k in f.keys()}
+                if got != want:
+                    bad.append(f"handle created with mode {mode!r}, closed and re-opened ({how}): records are {got}, expected {want}")
+                f.close()
+                with UKVFile(pp, "r") as g:
+                    got = {k: g.get(k) for k in g.keys()}
+                if got != want:
+                    bad.append(f"after close/re-open ({how}) of a mode-{mode!r} handle a fresh reader sees {got}, expected {want}")
+            except BaseException as ex:
+                bad.append(f"close/re-open ({how}) of a mode-{mode!r} handle raised {type(ex).__name__}: {ex}")
 elif op == "doomed-write":
     # a write session whose buffer holds a write that must be rejected (duplicate of a stored key, duplicate of an earlier
     # buffered key, oversize key): the rejected write is dropped, its bytes are never visible, later sessions are unaffected
